@@ -751,6 +751,25 @@ func run(c *fw.Ctx) {
 			}
 		})
 	}
+	// secondary injectors: failed injections do not change later requests
+	if c.Mine(9000002) {
+		for _, sq := range injectorSeqs() {
+			c.R.Evaluations++
+			c.Count("injector_sequences", 1)
+			if f := runInjectorSeq(sq); f != nil {
+				if f.kind == "harness" {
+					c.Infra("%s", f.detail)
+					return
+				}
+				sg := "C10/" + f.kind
+				if c.Violated(sg) {
+					c.Violate(&fw.Violation{Signature: sg})
+					continue
+				}
+				c.Violate(&fw.Violation{Property: "C10", Clause: f.clause, Signature: sg, Detail: f.detail, Witness: fw.JSON(sq)})
+			}
+		}
+	}
 	// the library's own registrations are defaults
 	if c.Mine(9000001) {
 		cases, err := appDefaultCases()
@@ -776,6 +795,13 @@ func run(c *fw.Ctx) {
 }
 
 func replay(wj json.RawMessage) (*fw.Violation, error) {
+	var iw InjSeq
+	if err := json.Unmarshal(wj, &iw); err == nil && len(iw.Requests) > 0 {
+		if f := runInjectorSeq(iw); f != nil {
+			return &fw.Violation{Property: "C10", Clause: f.clause, Signature: "C10/" + f.kind, Detail: f.detail}, nil
+		}
+		return nil, nil
+	}
 	var lw struct {
 		Case *AppDefaultCase `json:"library_default"`
 	}
